@@ -105,6 +105,8 @@ type FnTrans struct {
 	sitesMatched map[*SiteSpec]bool
 	contractErrors []string
 	assumpTerms []string
+	constArrs map[string]string
+	globalsUsed map[string]bool
 }
 
 func (t *FnTrans) fresh(prefix string) string {
@@ -130,7 +132,7 @@ func (t *FnTrans) declareFun(name string, args []string, ret string) string {
 
 func (t *FnTrans) define(prefix, sort, term string) string {
 	// keep small terms inline
-	if len(term) < 24 && !strings.Contains(term, " ") {
+	if !strings.Contains(term, " ") {
 		return term
 	}
 	n := t.fresh(prefix)
@@ -229,7 +231,7 @@ func (t *FnTrans) flatComps(ty types.Type) []compDesc {
 	switch ty.Underlying().(type) {
 	case *types.Slice:
 		i := t.mode.idxSort()
-		return []compDesc{{"#base", "Int"}, {"#off", i}, {"#len", i}, {"#cap", i}}
+		return []compDesc{{"!base", "Int"}, {"!off", i}, {"!len", i}, {"!cap", i}}
 	}
 	return nil
 }
@@ -292,6 +294,9 @@ func isStructOrArray(ty types.Type) bool {
 func (t *FnTrans) selectComp(st *HeapState, l *Loc, cd compDesc) string {
 	comp := l.Comp + cd.suffix
 	if l.Kind == LElem {
+		if ca, ok := t.constArrs[l.Ref]; ok {
+			return sx("select", ca, l.Idx)
+		}
 		arr := t.heapGet(st, comp, arraySort("Int", arraySort(t.mode.idxSort(), cd.sort)))
 		return sx("select", sx("select", arr, l.Ref), l.Idx)
 	}
@@ -973,7 +978,7 @@ func (t *FnTrans) setVal(v ssa.Value, x Val) {
 	}
 	// name scalar terms so that queries stay small
 	if x.K == VScalar {
-		if s := t.mode.scalarSort(v.Type()); s != "" && (len(x.S) >= 24 || strings.Contains(x.S, " ")) {
+		if s := t.mode.scalarSort(v.Type()); s != "" && strings.Contains(x.S, " ") {
 			n := fmt.Sprintf("v!%s!%d", sanitize(v.Name()), t.nextID())
 			t.defs = append(t.defs, fmt.Sprintf("(define-fun %s () %s %s)", n, s, x.S))
 			x.S = n
@@ -985,7 +990,7 @@ func (t *FnTrans) setVal(v ssa.Value, x Val) {
 			if i == 0 {
 				srt = "Int"
 			}
-			if len(x.Sub[i].S) >= 24 || strings.Contains(x.Sub[i].S, " ") {
+			if strings.Contains(x.Sub[i].S, " ") {
 				n := fmt.Sprintf("v!%s.%d!%d", sanitize(v.Name()), i, t.nextID())
 				t.defs = append(t.defs, fmt.Sprintf("(define-fun %s () %s %s)", n, srt, x.Sub[i].S))
 				x.Sub[i].S = n
